@@ -51,6 +51,7 @@ func checkC12(ctx *Ctx, r *Report) {
 	c12NullableAnyIndex(ctx, r, p)
 	c12Operators(ctx, r, p)
 	c12UnionAndConst(ctx, r, p)
+	c12RefsFreshBranches(ctx, r, p)
 }
 
 func c12Method(p *packages.Package, name string) *ast.FuncDecl {
@@ -647,4 +648,97 @@ func c12UnionAndConst(ctx *Ctx, r *Report, p *packages.Package) {
 	if !found {
 		r.Bad("skeleton/schema-struct", "jsonschema.formatScalar const", fd.Pos(), "formatScalar no longer emits `const` for concrete scalars")
 	}
+}
+
+// ---------------------------------------------------------------------------
+// Rules added after the third generation of seeds.
+
+// c12RefsFreshBranches: (a) every `$ref` written by the jenny goes through the configurable ReferenceFormatter — the
+// OpenAPI jenny reuses this code with `#/components/schemas/…`, a `$ref` formatted otherwise dangles there; (b) every
+// function returning a Definition returns storage of its own (a map created in the function, or another function's
+// result): callers Set("default" / "description") on what they get, a definition shared through a package-level
+// variable leaks one field's default into every other; (c) the anyOf of a union lists *all* its branches — `null`
+// included: only two-branch `T | null` unions are rewritten by the pass chain, larger ones reach the jenny.
+func c12RefsFreshBranches(ctx *Ctx, r *Report, p *packages.Package) {
+	info := p.TypesInfo
+	nRef, nRet, nBr := 0, 0, 0
+	for _, file := range p.Syntax {
+		// (b) package-level variables holding a definition
+		for _, d := range file.Decls {
+			gd, ok := d.(*ast.GenDecl)
+			if !ok || gd.Tok != token.VAR {
+				continue
+			}
+			for _, sp := range gd.Specs {
+				vs := sp.(*ast.ValueSpec)
+				for _, nm := range vs.Names {
+					t := info.TypeOf(nm)
+					if t != nil && strings.Contains(types.Unalias(t).String(), "orderedmap.Map") {
+						r.Bad("keywords/fresh-definitions", "jsonschema package variable "+nm.Name, nm.Pos(),
+							"the package-level variable "+nm.Name+" holds a definition: definitions are handed to callers that Set(\"default\") / Set(\"description\") on them — a shared one carries the default of one field into every other place that uses it")
+					}
+				}
+			}
+		}
+		for _, d := range file.Decls {
+			fd, ok := d.(*ast.FuncDecl)
+			if !ok || fd.Body == nil {
+				continue
+			}
+			returnsDef := false
+			if fd.Type.Results != nil {
+				for _, res := range fd.Type.Results.List {
+					if t := info.TypeOf(res.Type); t != nil && strings.Contains(types.Unalias(t).String(), "orderedmap.Map") {
+						returnsDef = true
+					}
+				}
+			}
+			ast.Inspect(fd.Body, func(m ast.Node) bool {
+				switch x := m.(type) {
+				case *ast.ReturnStmt:
+					if !returnsDef || len(x.Results) != 1 {
+						return true
+					}
+					nRet++
+					ok := true
+					if id, isID := ast.Unparen(x.Results[0]).(*ast.Ident); isID {
+						if v, isVar := objOf(info, id).(*types.Var); isVar && v.Parent() == p.Types.Scope() {
+							ok = false
+						}
+					}
+					r.Check(ok, "keywords/fresh-definitions", fmt.Sprintf("jsonschema.%s returns %s", fd.Name.Name, exprString(x.Results[0])), x.Pos(), "a local or freshly computed definition",
+						fmt.Sprintf("jsonschema.%s returns the package-level %s: its callers write `default` / `description` into what they receive", fd.Name.Name, exprString(x.Results[0])))
+				case *ast.CallExpr:
+					sel, ok := x.Fun.(*ast.SelectorExpr)
+					if ok && sel.Sel.Name == "Set" && len(x.Args) == 2 {
+						if tv, ok := info.Types[x.Args[0]]; ok && tv.Value != nil && tv.Value.ExactString() == `"$ref"` {
+							nRef++
+							through := false
+							if c, ok := ast.Unparen(x.Args[1]).(*ast.CallExpr); ok {
+								if cs, ok := c.Fun.(*ast.SelectorExpr); ok && cs.Sel.Name == "ReferenceFormatter" {
+									through = true
+								}
+							}
+							r.Check(through, "keywords/ref-through-formatter", fmt.Sprintf("jsonschema.%s writes $ref #%d", fd.Name.Name, nRef), x.Pos(), "formatted by the configurable ReferenceFormatter",
+								fmt.Sprintf("jsonschema.%s writes a `$ref` computed by %s: the OpenAPI jenny configures `#/components/schemas/…` through ReferenceFormatter — a reference formatted otherwise points to `#/definitions/…`, which does not exist in the OpenAPI document", fd.Name.Name, exprString(x.Args[1])))
+						}
+					}
+					// (c) tools.Map(<branches>, jenny.formatType)
+					if fn := callee(info, x); fn != nil && funcIs(fn, toolsPkgPath, "Map") && len(x.Args) == 2 && fd.Name.Name == "formatDisjunction" {
+						nBr++
+						s, isSel := ast.Unparen(x.Args[0]).(*ast.SelectorExpr)
+						r.Check(isSel && s.Sel.Name == "Branches", "traverse/union-branches-all", "jsonschema.formatDisjunction branches", x.Pos(), "every branch of the union is formatted",
+							fmt.Sprintf("formatDisjunction formats %s, not all the branches of the union: a dropped branch (`null` in `string | int64 | null`) is a value of the generated type that the emitted schema rejects", exprString(x.Args[0])))
+					}
+				}
+				return true
+			})
+		}
+	}
+	r.Count("$ref keywords written", nRef)
+	r.Floor("$ref keywords written", 1)
+	r.Count("definitions returned", nRet)
+	r.Floor("definitions returned", 10)
+	r.Count("branch lists formatted by formatDisjunction", nBr)
+	r.Floor("branch lists formatted by formatDisjunction", 1)
 }
